@@ -254,13 +254,21 @@ func Convert(value any, typ reflect.Type) (any, error) { //nolint: gocyclo
 // map does not depend on Go's randomised map iteration order.
 func SortedMapKeys(rv reflect.Value) []reflect.Value {
 	keys := rv.MapKeys()
+	// a key that is a pointer or a Drop is ordered by what it stands for, not by its address; keys that
+	// stand for equal values are ordered by their entries' values
 	name := func(k reflect.Value) string {
 		if k.Kind() == reflect.String {
 			return k.String()
 		}
-		return fmt.Sprint(k.Interface())
+		return Sprint(k.Interface())
 	}
-	sort.SliceStable(keys, func(i, j int) bool { return name(keys[i]) < name(keys[j]) })
+	sort.SliceStable(keys, func(i, j int) bool {
+		ni, nj := name(keys[i]), name(keys[j])
+		if ni != nj {
+			return ni < nj
+		}
+		return Sprint(rv.MapIndex(keys[i]).Interface()) < Sprint(rv.MapIndex(keys[j]).Interface())
+	})
 	return keys
 }
 
